@@ -19,11 +19,14 @@ def parseSel (c : Char) : Option AggSel :=
   | '-' => some .dflt | 's' => some .sum | 'l' => some .last | 'e' => some .explicit | 'x' => some .expo | 'd' => some .drop
   | _ => none
 
-def parseInst (s : String) : Option InstCfg :=
-  match s.toList with
-  | [n, k, a, cb] => do
+/-- `<i|f><kind><agg><cb>[n]`; the optional 5th character `n` = the view's histogram aggregation has `NoMinMax` -/
+def parseInstX (s : String) : Option (InstCfg × Bool) :=
+  let mk := fun (n k a cb : Char) (nomm : Bool) => do
     if n != 'i' && n != 'f' then none
-    pure { float := n == 'f', kind := ← parseKind k, sel := ← parseSel a, cb := cb == '1' }
+    pure (({ float := n == 'f', kind := ← parseKind k, sel := ← parseSel a, cb := cb == '1' } : InstCfg), nomm)
+  match s.toList with
+  | [n, k, a, cb] => mk n k a cb false
+  | [n, k, a, cb, 'n'] => mk n k a cb true
   | _ => none
 
 def parseSlots (s : String) : List (List Nat) :=
@@ -74,9 +77,21 @@ def renderRecs (recs : List (Nat × Bool × List Stream)) : List String :=
     ";".intercalate (s!"{rc.1}:{if rc.2.1 then "D" else "C"}" :: rc.2.2.map (renderMStream rc.2.1))
 
 /-- the same with the error status of each collection in the header: `<cycle>:<D|C>[:e]` -/
-def renderRecsX (recs : List (Nat × Bool × List Stream)) (errs : List (Nat × Bool × Bool)) : List String :=
+def isHistDT : DT → Bool
+  | .hist => true
+  | .expo => true
+  | _ => false
+
+/-- the expected Min/Max field of a histogram stream: one `min~max` or `-` per point -/
+def renderMM (insts : List InstCfg) (noMM : List Bool) (cyc : List CycleIn) (cycle : Nat) (delta : Bool) (st : MStream) : String :=
+  ",".intercalate (st.pts.map fun q => renderExtrema (refExtrema insts noMM cyc st.inst cycle delta q.attr))
+
+def renderRecsX (insts : List InstCfg) (noMM : List Bool) (cyc : List CycleIn)
+    (recs : List (Nat × Bool × List Stream)) (errs : List (Nat × Bool × Bool)) : List String :=
   ((flagRecs [] recs).zip (errs.map (·.2.2) ++ List.replicate recs.length false)).map fun (rc, e) =>
-    ";".intercalate (s!"{rc.1}:{if rc.2.1 then "D" else "C"}{if e then ":e" else ""}" :: rc.2.2.map (renderMStream rc.2.1))
+    ";".intercalate (s!"{rc.1}:{if rc.2.1 then "D" else "C"}{if e then ":e" else ""}" ::
+      rc.2.2.map fun st =>
+        renderMStream rc.2.1 st ++ (if isHistDT st.dt then ":" ++ renderMM insts noMM cyc rc.1 rc.2.1 st else ""))
 
 /-! ### parsing the observed records -/
 
@@ -98,7 +113,8 @@ def parseVec (s : String) : Option Spec.Vec :=
   | _ => none
 
 def parseOStream (s : String) : Option OStream :=
-  match s.splitOn ":" with
+  -- an optional 5th field (Min/Max of histogram points) is judged separately (`extremaOK`)
+  match (s.splitOn ":").take 4 with
   | [j, ty, ti, pts] =>
     match ti.splitOn "." with
     | [sc, tc, p, f, le, uni] => do
@@ -126,6 +142,33 @@ def parseORec (s : String) : Option (ORec × Bool) :=
     | _ => none
   | [] => none
 
+/-- Min/Max clause on the OBSERVED line: every histogram / exponential-histogram stream carries, per point, exactly the
+reference extrema (`refExtrema`: absent with NoMinMax) -/
+def extremaOK (insts : List InstCfg) (noMM : List Bool) (cyc : List CycleIn) (obs : List String) : Bool :=
+  obs.all fun rcs =>
+    match rcs.splitOn ";" with
+    | hd :: streams =>
+      (match hd.splitOn ":" with
+       | c :: r :: _ =>
+         match parseNat c with
+         | some k =>
+           streams.all fun st =>
+             match st.splitOn ":" with
+             | [j, ty, _, pts, mm] =>
+               (match parseNat j with
+                | some j =>
+                  (ty.startsWith "H" || ty.startsWith "X") &&
+                  mm.splitOn "," == (pts.splitOn ",").map fun q =>
+                    match parseNat ((q.splitOn "=").headD "") with
+                    | some a => renderExtrema (refExtrema insts noMM cyc j k (r == "D") a)
+                    | none => "?"
+                | none => false)
+             | [_, ty, _, _] => !(ty.startsWith "H" || ty.startsWith "X")
+             | _ => false
+         | none => false
+       | _ => false)
+    | [] => false
+
 def tagIf (b : Bool) (t : String) : List String := if b then [t] else []
 
 def stepLine (_ : Unit) (toks : List String) : Unit × Option Verdict :=
@@ -133,7 +176,9 @@ def stepLine (_ : Unit) (toks : List String) : Unit × Option Verdict :=
   match inp with
   | "twin" :: _ :: istr :: sstr :: rest =>
     let r : Option Verdict := do
-      let is ← (istr.splitOn ",").mapM parseInst
+      let isx ← (istr.splitOn ",").mapM parseInstX
+      let is := isx.map (·.1)
+      let noMM := isx.map (·.2)
       let slots := parseSlots sstr
       let xops ← (splitBar rest).mapM parseXOp
       -- a callback error does not affect the data: the oracle and the theorems speak about the history without the
@@ -141,16 +186,14 @@ def stepLine (_ : Unit) (toks : List String) : Unit × Option Verdict :=
       let ops := eraseErr xops
       let xmodel := XSys.run is slots xops
       let model := xmodel.sys
-      let mstr := renderRecsX model.recs xmodel.errs
+      let cyc := cycleInputs is slots ops
+      let mstr := renderRecsX is noMM cyc model.recs xmodel.errs
       match obs.mapM parseORec with
       | none => pure { agree := false, spec := "FAIL", nontrivial := false, branches := "unparsed-observation", model := " ".intercalate mstr }
       | some recsE =>
-        let raw := recsE.map (·.1)
-        -- the Sum field of points of instruments that do not collect a sum is not observed (see CbErr.lean)
-        let recs := normalizeNoSum is raw
-        let staleSum := !(recs == raw)
+        let recs := recsE.map (·.1)
         let errsOk := recsE.map (·.2) == xmodel.errs.map (·.2.2)
-        let spec := oracle is slots ops recs && pointsSelfConsistent recs
+        let spec := oracle is slots ops recs && pointsSelfConsistent recs && extremaOK is noMM cyc obs
         let aggs := is.map mkAgg
         let reported := fun (p : Agg → Bool) => (List.range is.length).any fun j =>
           (match aggs[j]? with | some g => p g | none => false) &&
@@ -166,12 +209,13 @@ def stepLine (_ : Unit) (toks : List String) : Unit × Option Verdict :=
           tagIf (ops.any fun o => match o with | .unreg _ => true | _ => false) "unregister" ++
           tagIf (model.cycle > 2) "multi-cycle" ++
           tagIf (xmodel.errs.any (·.2.2)) "callback-error" ++
-          tagIf staleSum "nosum-stale-sum-ignored" ++
+          tagIf ((List.range is.length).any fun j => noSumInst is j && model.recs.any fun rc => rc.2.2.any fun st => st.inst == j) "nosum-histogram" ++
+          tagIf ((List.range is.length).any fun j => noMM.getD j false && model.recs.any fun rc => rc.2.2.any fun st => st.inst == j && isHistDT st.dt) "nominmax-histogram" ++
           tagIf (model.recs.any fun rc => rc.2.2.any fun st => st.dt == .expo && st.pts.any fun p =>
             match p.val with | .hist _ _ [n, _, ps] => n == 0 || ps == 0 | _ => false) "expo-one-sided"
         -- `agree` also ties the printed form to the structured form the theorems are about: when the implementation's
         -- line equals the model's, what was parsed from it must be `modelORecs` of the model's records
-        pure { agree := (staleSum || mstr == obs) && errsOk && recs == modelORecs model.recs, spec := if spec then "ok" else "FAIL",
+        pure { agree := mstr == obs && errsOk && recs == modelORecs model.recs, spec := if spec then "ok" else "FAIL",
                nontrivial := model.recs.any (fun rc => !rc.2.2.isEmpty) && model.cycle > 1,
                branches := if tags.isEmpty then "-" else ",".intercalate tags,
                model := " ".intercalate mstr }
